@@ -421,6 +421,8 @@ func ruleMultilineReader(c *Ctx) {
 		{"mRawString", '`', "mNormal"},
 		{"mSlash", '/', "mLineComment"}, {"mSlash", '*', "mComment"},
 		{"mComment", '*', "mCommentStar"}, {"mCommentStar", '/', "mNormal"}, {"mCommentStar", -1, "mComment"},
+		// a run of stars keeps the "after a star" state: the comment may end with **/ ("=": no transition, or to itself)
+		{"mCommentStar", '*', "="},
 	}
 	closing := map[string]map[int64]bool{"mRune": {'\'': true}, "mString": {'"': true}, "mRawString": {'`': true}, "mCommentStar": {'/': true}, "mComment": {}, "mLineComment": {}, "mRuneEscape": {}, "mStringEscape": {}}
 	for _, e := range expected {
@@ -434,6 +436,10 @@ func ruleMultilineReader(c *Ctx) {
 			got = anyChar
 		}
 		okT := len(got) == 1 && got[0] == e.next
+		if e.next == "=" {
+			_, explicit := byChar[e.ch]
+			okT = (explicit || hasCharCase(cl, info, e.ch)) && (len(got) == 0 || len(got) == 1 && got[0] == e.mode)
+		}
 		chs := fmt.Sprintf("%q", rune(e.ch))
 		if e.ch == -2 {
 			chs = "any character"
@@ -464,6 +470,48 @@ func ruleMultilineReader(c *Ctx) {
 		}
 		sort.Strings(bad)
 		c.Ob("R6-closing", "base.ReadMultiline/"+m, cl, len(bad) == 0, fmt.Sprintf("mode %s is left for mNormal only on its terminator (other exits to mNormal: %v)", m, bad))
+	}
+	// ---- R9: characters rejected inside a string or rune literal. The Go scanner ends an interpreted string or a rune
+	// literal with an error only at a newline (scanString / scanRune: `ch == '\n' || ch < 0`); every other character,
+	// control characters such as TAB included, is part of the literal. The reader aborts a chunk through invalidChar:
+	// the test guarding each such call inside the literal modes must be exactly `ch == '\n'`.
+	nInv := 0
+	for _, m := range []string{"mRune", "mRuneEscape", "mString", "mStringEscape"} {
+		cl := arm[m]
+		if cl == nil {
+			continue
+		}
+		ast.Inspect(cl, func(n ast.Node) bool {
+			ifs, ok := n.(*ast.IfStmt)
+			if !ok {
+				return true
+			}
+			aborts := false
+			for _, st := range ifs.Body.List {
+				if r, ok := st.(*ast.ReturnStmt); ok && len(r.Results) == 1 {
+					if call, ok := unparen(r.Results[0]).(*ast.CallExpr); ok && identOf(call.Fun) != nil && identOf(call.Fun).Name == "invalidChar" {
+						aborts = true
+					}
+				}
+			}
+			if !aborts {
+				return true
+			}
+			nInv++
+			good := false
+			if b, ok := unparen(ifs.Cond).(*ast.BinaryExpr); ok && b.Op == token.EQL && identOf(b.X) != nil && identOf(b.X).Name == "ch" {
+				if tv, ok := info.Types[b.Y]; ok && tv.Value != nil {
+					if v, _ := constant.Int64Val(tv.Value); v == '\n' {
+						good = true
+					}
+				}
+			}
+			c.Ob("R9-literal-abort", fmt.Sprintf("base.ReadMultiline/%s#%d", m, nInv), ifs, good, "inside a string or rune literal only a newline aborts the chunk (condition "+exprString(ifs.Cond)+"); TAB and other control characters are part of the literal, as in the Go scanner")
+			return true
+		})
+	}
+	if nInv == 0 {
+		c.Ob("R9-literal-abort", "base.ReadMultiline/invalidChar", fd, false, "no abort through invalidChar found in the literal modes: anchor missing")
 	}
 	// brackets and continuation characters in mNormal
 	if cl := arm["mNormal"]; cl != nil {
@@ -538,4 +586,26 @@ func ruleMultilineReader(c *Ctx) {
 		}
 		c.Ob("R6-continuation", "base.ReadMultiline/mNormal/operators", cl, len(miss) == 0, fmt.Sprintf("a line ending in a binary operator or comma continues on the next line (ignorenl set for , = & | * < > %% ^ !; missing %v)", miss))
 	}
+}
+
+// hasCharCase reports whether the `switch ch` directly inside the clause has a case listing the character
+// (so that the default arm does not apply to it).
+func hasCharCase(cl *ast.CaseClause, info *types.Info, ch int64) bool {
+	found := false
+	for _, st := range cl.Body {
+		sw, ok := st.(*ast.SwitchStmt)
+		if !ok || sw.Tag == nil || identOf(sw.Tag) == nil || identOf(sw.Tag).Name != "ch" {
+			continue
+		}
+		for _, cc := range sw.Body.List {
+			for _, e := range cc.(*ast.CaseClause).List {
+				if tv, ok := info.Types[e]; ok && tv.Value != nil {
+					if v, _ := constant.Int64Val(tv.Value); v == ch {
+						found = true
+					}
+				}
+			}
+		}
+	}
+	return found
 }
